@@ -312,12 +312,13 @@ type walker struct {
 }
 
 type opScope struct {
-	writeSites map[string]map[int]string // instance path -> writing critical sections -> position
-	root       string
-	rootFn     *ssa.Function
-	sites      map[string]map[int]Mode // lock type name -> critical-section sites
-	at1Seen    map[string]bool
-	visiting   map[*fnCtx]int
+	writeSites    map[string]map[int]string // instance path -> writing critical sections -> position
+	writeSitesAll map[string]map[int]string // same, every site under which a write was seen
+	root          string
+	rootFn        *ssa.Function
+	sites         map[string]map[int]Mode // lock type name -> critical-section sites
+	at1Seen       map[string]bool
+	visiting      map[*fnCtx]int
 }
 
 func (w *walker) ctlOf(fc *fnCtx) *ctlInfo {
@@ -335,12 +336,19 @@ func (w *walker) ctlOf(fc *fnCtx) *ctlInfo {
 	return c
 }
 
+func (sc *opScope) allWriteSites(inst string) map[int]string {
+	if sc.writeSitesAll[inst] == nil {
+		sc.writeSitesAll[inst] = map[int]string{}
+	}
+	return sc.writeSitesAll[inst]
+}
+
 func (w *walker) walkRoot(name string, fc *fnCtx, path []string) {
 	if w.rootDone[fc] {
 		return
 	}
 	w.rootDone[fc] = true
-	sc := &opScope{root: name, rootFn: fc.fn, sites: map[string]map[int]Mode{}, at1Seen: map[string]bool{}, visiting: map[*fnCtx]int{}, writeSites: map[string]map[int]string{}}
+	sc := &opScope{root: name, rootFn: fc.fn, sites: map[string]map[int]Mode{}, at1Seen: map[string]bool{}, visiting: map[*fnCtx]int{}, writeSites: map[string]map[int]string{}, writeSitesAll: map[string]map[int]string{}}
 	w.walk(sc, fc, AV{}, path, false, nil)
 	// AT2: one state-changing critical section per operation and instance. Two
 	// writing sections on the receiver expose an intermediate state to other
@@ -374,6 +382,67 @@ func (w *walker) walkRoot(name string, fc *fnCtx, path []string) {
 			Sample: map[string]any{"rule": "AT2", "operation": name, "lock": lt, "writing_sections": len(ws)}})
 		w.res.Findings = append(w.res.Findings, Finding{Rule: "AT2", Func: name, Object: "sections " + lt, LockType: lt, Pos: where[len(where)-1], Path: path,
 			Reason: fmt.Sprintf("the operation changes the instance in %d separate critical sections (%s): other goroutines can observe the intermediate state", len(ws), strings.Join(where, ", "))})
+	}
+	// AT1, result part: the value an operation returns must be read in the critical
+	// section that applies its effect. A result that is a snapshot taken in one
+	// section while a *different* section of the same instance writes is the
+	// read-then-remove split (Pop built from Peek + truncate): two callers can be
+	// handed the same element while two are removed.
+	if fc.sum != nil {
+		// values are flow-insensitive while lock sites are flow-sensitive (a section
+		// re-entered after cond.Wait carries two sites): report only when none of the
+		// result's snapshots of an instance was taken in one of its writing sections.
+		snapSites := map[string]map[int]bool{}
+		// only the data flow into the result counts here: which return executes may
+		// well be decided inside the writing section (the empty test of a remover)
+		for t := range fc.sum.data {
+			if t.K != tSnap || isFresh(t.P) {
+				continue
+			}
+			if snapSites[t.P] == nil {
+				snapSites[t.P] = map[int]bool{}
+			}
+			snapSites[t.P][t.N] = true
+		}
+		var ps []string
+		for inst := range snapSites {
+			ps = append(ps, inst)
+		}
+		sort.Strings(ps)
+		for _, inst := range ps {
+			ws := sc.writeSitesAll[inst]
+			if len(ws) == 0 {
+				continue
+			}
+			// a result snapshot taken in a section that is not one of the writing
+			// sections (a section entered again after cond.Wait counts as writing when
+			// the write can execute under it)
+			first := -1
+			for n := range snapSites[inst] {
+				if _, ok := ws[n]; ok {
+					continue
+				}
+				if first < 0 || n < first {
+					first = n
+				}
+			}
+			if first < 0 {
+				continue
+			}
+			lt := w.lockTypeName(inst)
+			var where []string
+			for _, p := range ws {
+				where = append(where, p)
+			}
+			sort.Strings(where)
+			posA := "-"
+			if ia := w.e.siteInstr[first]; ia != nil {
+				posA = w.e.P.InstrPos(ia)
+			}
+			sc.at1Seen[lt] = true
+			w.res.Findings = append(w.res.Findings, Finding{Rule: "AT1", Func: name, Object: "atomicity " + lt, LockType: lt, Pos: where[len(where)-1], Path: path,
+				Reason: fmt.Sprintf("the value returned was read in the critical section acquired at %s while the operation's effect is applied in another critical section of the same lock (%s): result and effect are not one atomic step", posA, strings.Join(where, ", "))})
+		}
 	}
 	// per-operation AT1 obligations and region counts
 	regs := map[string]int{}
@@ -432,6 +501,11 @@ func (w *walker) walk(sc *opScope, fc *fnCtx, ctlAcc AV, path []string, dup bool
 			}
 			if ia := e.siteInstr[a.site]; ia != nil {
 				sc.writeSites[a.inst][a.site] = e.P.InstrPos(ia)
+			}
+			for n := range a.sites {
+				if ia := e.siteInstr[n]; ia != nil && n != 0 {
+					sc.allWriteSites(a.inst)[n] = e.P.InstrPos(ia)
+				}
 			}
 		}
 	}
